@@ -486,6 +486,9 @@ pub fn ctor_checks<const N: usize>(prop: &str, rep: &mut Report) {
     for m in 0..=(2 * N + 1).min(MAX_FROM_ARRAY) {
         ctors.push(Ctor::FromArray(m));
         ctors.push(Ctor::FromIter(m));
+        for h in 0..4 {
+            ctors.push(Ctor::FromIterHint(m, h));
+        }
     }
     for c in ctors {
         ledger::reset();
@@ -507,7 +510,7 @@ pub fn ctor_checks<const N: usize>(prop: &str, rep: &mut Report) {
             Ok(sut) => {
                 let snap = sut.snap();
                 let m = match c {
-                    Ctor::FromArray(m) | Ctor::FromIter(m) => m,
+                    Ctor::FromArray(m) | Ctor::FromIter(m) | Ctor::FromIterHint(m, _) => m,
                     _ => 0,
                 };
                 let want: Vec<u32> = (m.saturating_sub(N)..m).map(ledger::t_a).collect();
@@ -529,7 +532,7 @@ pub fn ctor_checks<const N: usize>(prop: &str, rep: &mut Report) {
                 let mut have = snap.iter.clone();
                 live.sort();
                 have.sort();
-                if live != have {
+                if live != have && !cfg!(feature = "plain") {
                     problems.push(Problem {
                         kind: PKind::Leak,
                         detail: format!("after construction {} live elements but {} in the buffer", live.len(), have.len()),
